@@ -261,12 +261,13 @@ func c32(repo string, out *fg.Out) error {
 		return fmt.Errorf("buildReplicationIngestHandler: measurement fallback chain / ParseEnvelope default not found")
 	}
 
-	// ---- (5) importPreamble error convention
+	// ---- (5) importPreamble error convention: every failure return is `preambleReject(c, …)`, preambleReject
+	// ends in `return errImportPreambleResponded` (non-nil), and both callers leave on `errResp != nil`
 	pf, pfd := fg.FindFunc(apiFiles, "ImportHandler", "importPreamble")
 	if pfd == nil {
 		return fmt.Errorf("importPreamble not found")
 	}
-	nerr, njson := 0, 0
+	nerr, nreject, njson := 0, 0, 0
 	ast.Inspect(pfd.Body, func(n ast.Node) bool {
 		rs, ok := n.(*ast.ReturnStmt)
 		if !ok || len(rs.Results) != 3 {
@@ -276,11 +277,25 @@ func c32(repo string, out *fg.Out) error {
 			return true
 		}
 		nerr++
-		if c, ok := rs.Results[2].(*ast.CallExpr); ok && fg.CalleeName(c) == "JSON" && strings.Contains(pf.Text(c), "c.Status(") {
-			njson++
+		if c, ok := rs.Results[2].(*ast.CallExpr); ok {
+			switch fg.CalleeName(c) {
+			case "preambleReject":
+				nreject++
+			case "JSON":
+				njson++
+			}
 		}
 		return true
 	})
+	_ = pf
+	rejectNonNil := false
+	if _, rfd2 := fg.FindFunc(apiFiles, "", "preambleReject"); rfd2 != nil && len(rfd2.Body.List) > 0 {
+		if rs, ok := rfd2.Body.List[len(rfd2.Body.List)-1].(*ast.ReturnStmt); ok && len(rs.Results) == 1 {
+			if id, ok := rs.Results[0].(*ast.Ident); ok && id.Name == "errImportPreambleResponded" {
+				rejectNonNil = true
+			}
+		}
+	}
 	callersTestNil := 0
 	for _, hn := range []string{"handleCSVImport", "handleParquetImport"} {
 		hf, hfd := fg.FindFunc(apiFiles, "ImportHandler", hn)
@@ -289,7 +304,12 @@ func c32(repo string, out *fg.Out) error {
 		}
 		ast.Inspect(hfd.Body, func(n ast.Node) bool {
 			if is, ok := n.(*ast.IfStmt); ok && strings.ReplaceAll(hf.Text(is.Cond), " ", "") == "errResp!=nil" {
-				callersTestNil++
+				// every path through the if-body must return
+				if len(is.Body.List) > 0 {
+					if _, ok := is.Body.List[len(is.Body.List)-1].(*ast.ReturnStmt); ok {
+						callersTestNil++
+					}
+				}
 			}
 			return true
 		})
@@ -297,7 +317,62 @@ func c32(repo string, out *fg.Out) error {
 	if nerr == 0 {
 		return fmt.Errorf("importPreamble: no failure returns found")
 	}
-	swallow := njson == nerr && callersTestNil == 2
+	swallow := njson > 0
+	stops := nreject == nerr && rejectNonNil && callersTestNil == 2
+
+	// ---- (5b) WAL row records: the routing entries are assigned AFTER the loop that copies the columns
+	routingLast := true
+	for _, fn := range [][2]string{{"ArrowBuffer", "columnarToWALRecords"}, {"", "typedBatchToWALRecords"}} {
+		_, wfd2 := fg.FindFunc(ing, fn[0], fn[1])
+		if wfd2 == nil {
+			return fmt.Errorf("%s not found", fn[1])
+		}
+		var copyEnd token.Pos
+		assigns := map[string]token.Pos{}
+		ast.Inspect(wfd2.Body, func(n ast.Node) bool {
+			switch x := n.(type) {
+			case *ast.RangeStmt:
+				// the inner loop ranging over the columns (record.Columns / batch.Data)
+				if se, ok := x.X.(*ast.SelectorExpr); ok && (se.Sel.Name == "Columns" || se.Sel.Name == "Data") {
+					if _, isAssignToRow := x.Key.(*ast.Ident); isAssignToRow && x.Value != nil && x.End() > copyEnd {
+						inner := false
+						ast.Inspect(x.Body, func(m ast.Node) bool {
+							if as, ok := m.(*ast.AssignStmt); ok && len(as.Lhs) == 1 {
+								if ix, ok := as.Lhs[0].(*ast.IndexExpr); ok {
+									if id, ok := ix.X.(*ast.Ident); ok && id.Name == "row" {
+										inner = true
+									}
+								}
+							}
+							return true
+						})
+						if inner {
+							copyEnd = x.End()
+						}
+					}
+				}
+			case *ast.AssignStmt:
+				if len(x.Lhs) == 1 {
+					if ix, ok := x.Lhs[0].(*ast.IndexExpr); ok {
+						if id, ok := ix.X.(*ast.Ident); ok && id.Name == "row" {
+							if bl, ok := ix.Index.(*ast.BasicLit); ok && bl.Kind == token.STRING {
+								assigns[unq(bl)] = x.Pos()
+							}
+						}
+					}
+				}
+			}
+			return true
+		})
+		if copyEnd == 0 {
+			return fmt.Errorf("%s: column copy loop not found", fn[1])
+		}
+		for _, k := range []string{"_database", "_measurement"} {
+			if p, ok := assigns[k]; !ok || p < copyEnd {
+				routingLast = false
+			}
+		}
+	}
 
 	// ---- (6) WAL emission in writeColumnarInternal
 	wf, wfd := fg.FindFunc(ing, "ArrowBuffer", "writeColumnarInternal")
@@ -320,6 +395,8 @@ func c32(repo string, out *fg.Out) error {
 	out.JSON["envelope_default_db"] = envDefault
 	out.JSON["replication_uses_row_database"] = usesRowDatabase
 	out.JSON["import_preamble_swallows_errors"] = swallow
+	out.JSON["import_preamble_failures_stop"] = stops
+	out.JSON["wal_routing_keys_last"] = routingLast
 
 	L := &out.Lean
 	fmt.Fprintln(L, "namespace Arc.Generated.C32")
@@ -339,7 +416,9 @@ func c32(repo string, out *fg.Out) error {
 	fmt.Fprintf(L, "/-- r[\"…\"] lookups of buildReplicationIngestHandler, in source order (as bytes) -/\ndef measurementFallback : List (List UInt8) := %s\n", bytesList(chain))
 	fmt.Fprintf(L, "def envelopeDefaultDB : List UInt8 := %s\n", bytesLit(envDefault))
 	fmt.Fprintf(L, "/-- the replicated-row path reads r[\"_database\"] / r[\"database\"] -/\ndef replicationUsesRowDatabase : Bool := %v\n", usesRowDatabase)
-	fmt.Fprintf(L, "/-- every failure return of importPreamble is `c.Status(..).JSON(..)` (nil after a successful write) and both callers test `errResp != nil` -/\ndef importPreambleSwallowsErrors : Bool := %v\n", swallow)
+	fmt.Fprintf(L, "/-- some failure return of importPreamble is a bare `c.Status(..).JSON(..)` (nil after a successful write) -/\ndef importPreambleSwallowsErrors : Bool := %v\n", swallow)
+	fmt.Fprintf(L, "/-- every failure return of importPreamble is preambleReject(..), which returns the non-nil sentinel, and both callers return on `errResp != nil` -/\ndef importPreambleFailuresStop : Bool := %v\n", stops)
+	fmt.Fprintf(L, "/-- columnarToWALRecords / typedBatchToWALRecords assign row[\"_database\"], row[\"_measurement\"] after copying the columns -/\ndef walRoutingKeysLast : Bool := %v\n", routingLast)
 	fmt.Fprintln(L, "end Arc.Generated.C32")
 	return nil
 }
